@@ -195,7 +195,7 @@ package handlers
 //@   safety
 //@   requires a != nil && a.proxyService != nil && w != nil && r != nil && r.URL != nil && trans != nil && pr != nil && pr.requestLogger != nil && pr.stats != nil
 //@   requires allocated(ghost(w).hdr)
-//@   modifies gvar pxCalls, gvar pxEndpoints, gvar pxPath, gvar pxBody, gvar lastEncoded, ghost started, ghost status, ghost hdr, ghost(w).hdr[all], ghost encW, ghost remaining, ghost backing, ports.RequestStats.RoutingDecision, object pr.stats
+//@   modifies gvar pxCalls, gvar pxEndpoints, gvar pxPath, gvar pxBody, gvar lastEncoded, ghost started, ghost status, ghost hdr, ghost(w).hdr[all], ghost encW, ghost remaining, ghost backing, ports.RequestStats.RoutingDecision, object pr.stats, gvar unflushed
 //@   ensures pxCalls == old(pxCalls) + 1 && pxEndpoints == endpoints && pxPath == old(r.URL.Path) && pxBody == old(ghost(r.Body).remaining)
 //@   ensures res == nil ==> ghost(w).started
 //@   ensures res != nil && !ghost(w).started ==> ghost(w).hdr["Content-Type"] == old(ghost(w).hdr["Content-Type"])
@@ -220,14 +220,14 @@ package handlers
 //@   property C05
 //@   safety
 //@   requires a != nil && w != nil && recorder != nil && recorder.body != nil && pr != nil && pr.requestLogger != nil && trans != nil
-//@   modifies ghost started, ghost status, ghost(w).hdr[all], gvar lastEncoded, ghost encW
+//@   modifies ghost started, ghost status, ghost(w).hdr[all], gvar lastEncoded, ghost encW, gvar unflushed
 //@   ensures ghost(w).started && (!old(ghost(w).started) ==> ghost(w).status == recorder.status)
 
 //@ func (a *Application) writeTranslatedSuccessResponse
 //@   property C05
 //@   safety
 //@   requires a != nil && w != nil && recorder != nil && trans != nil
-//@   modifies ghost started, ghost status, ghost(w).hdr[all]
+//@   modifies ghost started, ghost status, ghost(w).hdr[all], gvar unflushed
 //@   ensures res == nil ==> ghost(w).started && (!old(ghost(w).started) ==> ghost(w).status == 200)
 //@   ensures res != nil && !ghost(w).started ==> ghost(w).hdr["Content-Type"] == old(ghost(w).hdr["Content-Type"])
 
@@ -302,7 +302,7 @@ package handlers
 //@   replay handlers_translation_stream_noanswer
 //@   safety
 //@   requires a != nil && a.proxyService != nil && w != nil && r != nil && trans != nil && pr != nil && pr.requestLogger != nil && pr.stats != nil
-//@   modifies gvar pxCalls, gvar pxEndpoints, gvar pxPath, gvar pxBody, gvar lastEncoded, ghost started, ghost status, ghost hdr, ghost(w).hdr[all], ghost encW, ghost remaining, ghost backing, ports.RequestStats.RoutingDecision, object pr.stats
+//@   modifies gvar pxCalls, gvar pxEndpoints, gvar pxPath, gvar pxBody, gvar lastEncoded, ghost started, ghost status, ghost hdr, ghost(w).hdr[all], ghost encW, ghost remaining, ghost backing, ports.RequestStats.RoutingDecision, object pr.stats, gvar unflushed
 //@   at call transformStreamAndWaitForProxy 1 assume streamRecorder.answered == ghost(streamRecorder).started
 //@   at call transformStreamAndWaitForProxy 1 assert ghost(streamRecorder).started && streamRecorder.status < 400
 
